@@ -808,14 +808,25 @@ Qed.
     of the implementation for SPOP and XADD *, the f64 values of sorted-set arguments), and
     whether the lazy expiry ran before it - true for everything a client sends, false for the
     pop a waiting client is served, which does not pass through process_normal_command *)
-Record item := { x_db : Z; x_parts : list frame; x_or : option frame; x_lazy : bool }.
+(** [x_purge]: keys of the item's database that are expired lazily (removed if their stored
+    deadline has passed) before anything else - the only thing WATCH does to a database (d9330f8:
+    storage.expire_if_due per key it registers; WATCH does not pass through the dispatch and
+    leaves no record) *)
+Record item := { x_db : Z; x_parts : list frame; x_or : option frame; x_lazy : bool; x_purge : list bytes }.
+Definition purge_dbs (now : Z) (dbs : list db) (dbi : Z) (ks : list bytes) : list db :=
+  list_set dbs (Z.to_nat dbi) (fst (fold_left (purge_key now) ks (nth (Z.to_nat dbi) dbs empty_db, []))).
+Lemma purge_dbs_nil now dbs dbi : purge_dbs now dbs dbi [] = dbs.
+Proof. unfold purge_dbs. cbn [fold_left fst]. apply list_set_nth_same. Qed.
+Lemma purge_dbs_fresh now dbs dbi ks : lfresh_all now dbs -> purge_dbs now dbs dbi ks = dbs.
+Proof. intros F. unfold purge_dbs. rewrite (purge_fold_fresh_id now _ (F _)). cbn [fst]. apply list_set_nth_same. Qed.
+Definition xbase (now : Z) (dbs : list db) (x : item) : list db := purge_dbs now dbs (x_db x) (x_purge x).
 Definition xstep_dbs (now : Z) (dbs : list db) (x : item) : list db :=
-  if x_lazy x then step_dbs now dbs (x_db x) (x_parts x) (x_or x)
-  else dstep_dbs now dbs (x_db x) (x_parts x) (x_or x).
+  if x_lazy x then step_dbs now (xbase now dbs x) (x_db x) (x_parts x) (x_or x)
+  else dstep_dbs now (xbase now dbs x) (x_db x) (x_parts x) (x_or x).
 Definition xout_recs (now : Z) (dbs : list db) (x : item) : list (list frame) :=
   match x_parts x with
   | FBulk nm :: _ =>
-      dout_recs now (if x_lazy x then pre_dbs now dbs (x_db x) (upper nm) (x_parts x) else dbs) (x_db x) (x_parts x) (x_or x)
+      dout_recs now (if x_lazy x then pre_dbs now (xbase now dbs x) (x_db x) (upper nm) (x_parts x) else xbase now dbs x) (x_db x) (x_parts x) (x_or x)
   | _ => []
   end.
 Definition xrecs (now : Z) (dbs : list db) (x : item) : list (list frame) :=
@@ -828,23 +839,23 @@ Definition xstep (now : Z) (st : state) (x : item) : state :=
 Definition run_items (now : Z) (xs : list item) (st : state) : state := fold_left (xstep now) xs st.
 
 Lemma xrecs_lazy now dbs dbi p o :
-  xrecs now dbs {| x_db := dbi; x_parts := p; x_or := o; x_lazy := true |} = cmd_recs now dbs dbi p o.
+  xrecs now dbs {| x_db := dbi; x_parts := p; x_or := o; x_lazy := true; x_purge := [] |} = cmd_recs now dbs dbi p o.
 Proof.
-  unfold xrecs, xout_recs, cmd_recs, dcmd_recs. cbn [x_parts x_db x_or x_lazy].
+  unfold xrecs, xout_recs, cmd_recs, dcmd_recs, xbase. cbn [x_parts x_db x_or x_lazy x_purge]. rewrite purge_dbs_nil.
   destruct p as [|[] rest]; try reflexivity; cbn [verb_recs]; rewrite ?app_nil_r; reflexivity.
 Qed.
 Lemma xrecs_direct now dbs dbi p o :
-  xrecs now dbs {| x_db := dbi; x_parts := p; x_or := o; x_lazy := false |} = dcmd_recs now dbs dbi p o.
+  xrecs now dbs {| x_db := dbi; x_parts := p; x_or := o; x_lazy := false; x_purge := [] |} = dcmd_recs now dbs dbi p o.
 Proof.
-  unfold xrecs, xout_recs, dcmd_recs. cbn [x_parts x_db x_or x_lazy].
+  unfold xrecs, xout_recs, dcmd_recs, xbase. cbn [x_parts x_db x_or x_lazy x_purge]. rewrite purge_dbs_nil.
   destruct p as [|[] rest]; try reflexivity; cbn [verb_recs dout_recs]; rewrite ?app_nil_r; reflexivity.
 Qed.
 (** a command sent by a client, as one step *)
 Lemma nc_state now s c dbi parts o :
   st_of (snd (normal_command now s c dbi parts o)) =
-  xstep now (st_of s) {| x_db := dbi; x_parts := parts; x_or := o; x_lazy := true |}.
+  xstep now (st_of s) {| x_db := dbi; x_parts := parts; x_or := o; x_lazy := true; x_purge := [] |}.
 Proof.
-  unfold st_of, xstep, xstep_dbs. cbn [fst snd x_db x_parts x_or x_lazy].
+  unfold st_of, xstep, xstep_dbs, xbase. cbn [fst snd x_db x_parts x_or x_lazy x_purge]. rewrite purge_dbs_nil.
   rewrite nc_dbs, nc_aof, xrecs_lazy. reflexivity.
 Qed.
 
@@ -853,7 +864,7 @@ Qed.
 Fixpoint queue_items (dbi : Z) (q : list (list frame)) : list item :=
   match q with
   | [] => []
-  | p :: r => {| x_db := dbi; x_parts := p; x_or := None; x_lazy := true |}
+  | p :: r => {| x_db := dbi; x_parts := p; x_or := None; x_lazy := true; x_purge := [] |}
               :: queue_items (if beq (queued_name p) (bs "SELECT") then sel_db dbi p else dbi) r
   end.
 
@@ -867,6 +878,43 @@ Definition served_pop (s : server) (dbi : Z) (lf : bool) (k : bytes) : server :=
   | (FBulk v, d') => log_pop (set_db s dbi d') dbi lf k
   | _ => s
   end.
+
+(** the keys a WATCH expires lazily: those it registers (d9330f8), i.e. not the ones the connection
+    already watches in the database (3f1b680), up to the first argument that is not a bulk string *)
+Fixpoint watch_purged (now : Z) (dbi : Z) (d : db) (t : tracker) (args : list frame) (w : list (bytes * Z)) : list bytes :=
+  match args with
+  | FBulk k :: r =>
+      match alookup (wkey dbi k) w with
+      | Some _ => watch_purged now dbi d t r w
+      | None =>
+          match purge_key now (d, []) k with
+          | (d1, removed) =>
+              match register_watch (mark_all t removed) k with
+              | (b, t') => k :: watch_purged now dbi d1 t' r (aset (wkey dbi k) b w)
+              end
+          end
+      end
+  | _ => []
+  end.
+Lemma purge_key_fst now d l k : fst (purge_key now (d, l) k) = fst (purge_key now (d, []) k).
+Proof. unfold purge_key. cbn [fst snd]. destruct (get_entry d k) as [e|]; [destruct (expired now e)|]; reflexivity. Qed.
+Lemma purge_fold_fst now : forall ks d l, fst (fold_left (purge_key now) ks (d, l)) = fst (fold_left (purge_key now) ks (d, [])).
+Proof.
+  induction ks as [|k ks IH]; intros d l; [reflexivity|]. cbn [fold_left].
+  destruct (purge_key now (d, l) k) as [d1 l1] eqn:E1. destruct (purge_key now (d, []) k) as [d2 l2] eqn:E2.
+  assert (d1 = d2) by (pose proof (purge_key_fst now d l k) as X; rewrite E1, E2 in X; exact X). subst d2.
+  rewrite (IH d1 l1), (IH d1 l2). reflexivity.
+Qed.
+Lemma watch_loop_db now dbi : forall args d t w,
+  fst (fst (fst (watch_loop_partial now dbi d t args w))) =
+  fst (fold_left (purge_key now) (watch_purged now dbi d t args w) (d, [])).
+Proof.
+  induction args as [|a args IH]; intros d t w; cbn [watch_loop_partial watch_purged]; [reflexivity|].
+  destruct a; try reflexivity. destruct (alookup (wkey dbi b) w); [apply IH|].
+  destruct (purge_key now (d, []) b) as [d1 removed] eqn:E.
+  destruct (register_watch (mark_all t removed) b) as [bb t']. cbn [fold_left]. rewrite E, IH.
+  symmetry. apply purge_fold_fst.
+Qed.
 
 Inductive ev :=
 | EConn (c : Z) | EClose (c : Z)
@@ -897,14 +945,17 @@ Definition ev_items (now : Z) (s : server) (e : ev) : list item :=
                if watch_violated now s cn then [] else queue_items (c_db cn) (c_queue cn)
              else [])
           else if beq command (bs "DISCARD") then []
-          else if beq command (bs "WATCH") then []
+          else if beq command (bs "WATCH") then
+            (if len (FBulk nm :: rest) <? 2 then [] else if c_intx cn then []
+             else [{| x_db := c_db cn; x_parts := []; x_or := None; x_lazy := false;
+                      x_purge := watch_purged now (c_db cn) (get_db s (c_db cn)) (get_trk s (c_db cn)) rest (c_watched cn) |}])
           else if beq command (bs "UNWATCH") then []
           else if beq command (bs "AUTH") then []
-          else [{| x_db := c_db cn; x_parts := FBulk nm :: rest; x_or := o; x_lazy := true |}]
+          else [{| x_db := c_db cn; x_parts := FBulk nm :: rest; x_or := o; x_lazy := true; x_purge := [] |}]
       end
   | EServed dbi lf k =>
       match on_key (get_db s dbi) k (e_pop lf) with
-      | (FBulk _, _) => [{| x_db := dbi; x_parts := pop_cmd lf k; x_or := None; x_lazy := false |}]
+      | (FBulk _, _) => [{| x_db := dbi; x_parts := pop_cmd lf k; x_or := None; x_lazy := false; x_purge := [] |}]
       | _ => []
       end
   | _ => []
@@ -1049,8 +1100,8 @@ Proof.
   destruct r; try exact Hsame.
   constructor.
   - eapply linv_same; [exact Hi| |]; unfold log_pop, log_aof_in; destruct (same_db _ _); reflexivity.
-  - unfold run_items. cbn [fold_left]. unfold xstep, xstep_dbs, st_of. cbn [fst snd x_db x_parts x_or x_lazy].
-    rewrite xrecs_direct, pop_recs, pop_dstep. unfold get_db in E. rewrite E. cbn [snd].
+  - unfold run_items. cbn [fold_left]. unfold xstep, xstep_dbs, st_of, xbase. cbn [fst snd x_db x_parts x_or x_lazy x_purge].
+    rewrite purge_dbs_nil, xrecs_direct, pop_recs, pop_dstep. unfold get_db in E. rewrite E. cbn [snd].
     unfold log_pop. rewrite s_aof_log_aof_in. f_equal.
     unfold log_aof_in. destruct (same_db _ _); reflexivity.
 Qed.
@@ -1105,10 +1156,16 @@ Proof.
     { split; [|reflexivity]. destruct (c_intx cn); [|apply Hq; exact Hsame]. cbn [negb snd].
       eapply Hconn; try reflexivity. exact Hdb. }
     destruct (beq (upper (trim nm)) (bs "WATCH")).
-    { split; [|reflexivity]. destruct (len parts <? 2); [apply Hq; exact Hsame|].
-      destruct (c_intx cn); [apply Hq; exact Hsame|].
+    { destruct (len parts <? 2); [split; [apply Hq; exact Hsame|reflexivity]|].
+      destruct (c_intx cn); [split; [apply Hq; exact Hsame|reflexivity]|].
+      split; [|cbn [forallb]; unfold item_ok, db_ok in *; cbn [x_db]; lia].
+      pose proof (watch_loop_db now (c_db cn) rest (get_db s (c_db cn)) (get_trk s (c_db cn)) (c_watched cn)) as Hw.
       destruct (watch_loop_partial now (c_db cn) (get_db s (c_db cn)) (get_trk s (c_db cn)) rest (c_watched cn)) as [[[d' t'] w'] okb].
-      cbn [snd]. eapply Hconn; try reflexivity. exact Hdb. }
+      cbn [fst snd] in Hw. cbn [snd]. apply Hq. constructor.
+      - eapply (linv_set s c (with_tx cn false (c_queue cn) w')); [exact Hi|exact Hc0|exact Hdb|reflexivity|reflexivity].
+      - unfold run_items. cbn [fold_left]. unfold xstep, xstep_dbs, xrecs, xout_recs, st_of, xbase, purge_dbs.
+        cbn [fst snd x_db x_parts x_or x_lazy x_purge verb_recs app push_recs dstep_dbs].
+        change (nth (Z.to_nat (c_db cn)) (s_dbs s) empty_db) with (get_db s (c_db cn)). rewrite <- Hw. reflexivity. }
     destruct (beq (upper (trim nm)) (bs "UNWATCH")).
     { split; [|reflexivity]. cbn [snd]. destruct (unwatch_all_rest (c_watched cn) s) as (U1 & U2 & U3 & U4).
       eapply (Hconn (with_tx cn (c_intx cn) (c_queue cn) [])); [exact Hdb| | | |];
@@ -1741,7 +1798,10 @@ Proof.
   intros F. unfold step_dbs. destruct parts as [|[] rest]; try reflexivity. rewrite pre_dbs_fresh by exact F. reflexivity.
 Qed.
 Lemma xstep_is_step now dbs x : lfresh_all now dbs -> xstep_dbs now dbs x = step_dbs now dbs (x_db x) (x_parts x) (x_or x).
-Proof. intros F. unfold xstep_dbs. destruct (x_lazy x); [reflexivity|apply dstep_is_step; exact F]. Qed.
+Proof.
+  intros F. unfold xstep_dbs, xbase. rewrite (purge_dbs_fresh now dbs (x_db x) (x_purge x) F).
+  destruct (x_lazy x); [reflexivity|apply dstep_is_step; exact F].
+Qed.
 (** EVALSHA is in the table but never written as it was sent: in this model (no script cache
     behind process_normal_command) it changes nothing *)
 Lemma evalsha_inert now dbs dbi parts o nm rest :
@@ -1927,4 +1987,14 @@ Proof.
     first [left; reflexivity | right; exists (bl_left st), k; unfold log_pop; rewrite s_aof_log_aof_in; reflexivity]).
   destruct (zlookup (u_conn u) (b_blk b)); cbn [fst]; [|left; reflexivity].
   right. exists (u_left u), (u_key u). unfold log_pop. rewrite s_aof_log_aof_in. reflexivity.
+Qed.
+(** the item of a WATCH (no command, only keys to expire lazily): no record; the databases lose
+    only entries of those keys whose deadline had passed - nothing at all when none has *)
+Lemma purge_only_item now dbs x : x_parts x = [] ->
+  xrecs now dbs x = [] /\ xstep_dbs now dbs x = purge_dbs now dbs (x_db x) (x_purge x) /\
+  (lfresh_all now dbs -> xstep_dbs now dbs x = dbs).
+Proof.
+  intros Hp. unfold xrecs, xout_recs, xstep_dbs, xbase, step_dbs, dstep_dbs. rewrite Hp. cbn [verb_recs app].
+  split; [reflexivity|]. split; [destruct (x_lazy x); reflexivity|].
+  intros F. rewrite (purge_dbs_fresh now dbs _ _ F). destruct (x_lazy x); reflexivity.
 Qed.
